@@ -108,6 +108,8 @@ type form struct {
 	hop func(e *simEnv, p *refmatch.Probe, from netip.Addr) []byte
 	// dest builds the reply of the target (nil = protocol default)
 	dest func(e *simEnv, p *refmatch.Probe) []byte
+	// prep adjusts the environment before the run (e.g. the form of the SACK handshake)
+	prep func(e *simEnv)
 }
 
 func anyV(refmatch.Variant) bool     { return true }
@@ -203,6 +205,17 @@ func catalogue() []form {
 				return gen.TCPReply(e.spec.Target, e.local, e.spec.Port, e.lport, 0x66000000, p.Seq+1, wirefmt.TCPSyn|wirefmt.TCPAck, o, nil, nil)
 			}})
 	}
+	fs = append(fs, form{name: "synack-ecn-setup", applies: func(v refmatch.Variant) bool { return v.Proto == "syn" },
+		dest: func(e *simEnv, p *refmatch.Probe) []byte {
+			return gen.TCPReply(e.spec.Target, e.local, e.spec.Port, e.lport, 0x66000000, p.Seq+1, wirefmt.TCPSyn|wirefmt.TCPAck|0x40, wirefmt.OptMSS(1460), nil, nil)
+		}})
+	// SACK handshake forms: ECN-setup SYN-ACK (SYN|ACK|ECE), timestamps, window scale only
+	fs = append(fs, form{name: "sack-handshake-ecn-ts", applies: func(v refmatch.Variant) bool { return v.Proto == "sack" },
+		prep: func(e *simEnv) {
+			e.peer.ExtraFlags = 0x40
+			e.peer.TS = true
+			e.peer.TSVal, e.peer.TSEcr = 0xfffffff0, 77
+		}})
 	fs = append(fs, form{name: "rst", applies: func(v refmatch.Variant) bool { return v.Proto == "syn" },
 		dest: func(e *simEnv, p *refmatch.Probe) []byte {
 			return gen.TCPReply(e.spec.Target, e.local, e.spec.Port, e.lport, 0, 0, wirefmt.TCPRst, nil, nil, nil)
@@ -257,6 +270,9 @@ func catalogue() []form {
 // the window, at its end or never) with form.dest.
 func pathFor(e *simEnv, fm form, flow int, w window, destAt int, r *rand.Rand, noise bool) *pathModel {
 	v := e.spec.V
+	if fm.prep != nil {
+		fm.prep(e)
+	}
 	m := &pathModel{hops: map[int]*hopSpec{}}
 	last := w.last
 	if destAt > 0 {
@@ -340,7 +356,7 @@ func checkC02() fw.Check {
 							cases = append(cases, fw.Case{ID: id, Bubble: true, Run: func(c *fw.Ctx) {
 								for rep := 0; rep < reps; rep++ {
 									for _, dp := range destPositions(w) {
-										if fm.dest != nil && fm.hop == nil && dp == 0 {
+										if (fm.dest != nil || fm.prep != nil) && fm.hop == nil && dp == 0 {
 											continue // a destination form needs a reachable destination
 										}
 										for _, noise := range []bool{false, true} {
